@@ -1216,7 +1216,7 @@ class ImageProperty(Property):
 
     def make_case(self, seed, idx):
         c = Property.make_case(self, seed, idx)
-        c["link"] = idx % self.link_every == 0
+        c["link"] = (idx % self.link_every == 0) and c.get("link") is not False   # a tweak may rule a case out of linking
         return c
 
     def image_checks(self, L, info, c):
@@ -1391,7 +1391,7 @@ class C10(ImageProperty):
 
     def image_checks(self, L, info, c):
         from . import image
-        return image.check_classes(L, info), []
+        return image.check_classes(L, info)
 
 
 class C01(ImageProperty):
@@ -1474,7 +1474,7 @@ class C11(Property):
 
     def make_case(self, seed, idx):
         c = Property.make_case(self, seed, idx)
-        c["link"] = idx % self.link_every == 0
+        c["link"] = (idx % self.link_every == 0) and c.get("link") is not False   # a tweak may rule a case out of linking
         return c
 
     def nontrivial(self, c):
